@@ -366,3 +366,67 @@ def beta_divisions_guarded(ctx, rule='division-by-beta-guarded'):
                       path=hit or hit0)
     if n < 6:
         raise AnalysisBroken('only %d divisions by beta analysed' % n)
+
+
+def beta_tracks_residual(ctx, rule='residual-norm-tracks-residual'):
+    """m_beta is the cached norm of the residual vector m_fac_f; every consumer (breakdown test, normalisation, sub-diagonal
+    entry, the solver's convergence test) reads the cache.  Pairing rule over every member of the factorization: after each
+    write of the residual (assignment, in-place update, setZero, swap) every normal path to the function's exit passes a write
+    of the norm of the matching kind before leaving -- norm(residual) after a general write, norm(residual) or literal zero after
+    setZero -- with no further residual write in between (a call that rewrites both through reference parameters counts as
+    both writes)."""
+    n = 0
+    for fn in ctx.F.concrete():
+        if fn.cls not in ('Spectra::Arnoldi', 'Spectra::Lanczos') or not fn.cfg or fn.d.get('ctor') or fn.d.get('dtor'):
+            continue
+        fe = ctx.E.of(fn)
+        fw = []      # (node id, kind) kind: 'zero' | 'general'
+        bw = {}      # node id -> kind 'zero' | 'norm' | 'both'
+        for x in fn.walk():
+            if x['k'] in ('BinaryOperator', 'CXXOperatorCallExpr') and x.get('op') == '=':
+                t = sym(fn, x, inline=False)
+                if t[1] == ('F', 'm_beta'):
+                    v = t[2]
+                    while isinstance(v, tuple) and v[0] in ('ctor', 'cast') and len(v) >= 2:
+                        v = v[-1]
+                    if v == ('lit', '0'):
+                        bw[x['id']] = 'zero'
+                    elif isinstance(v, tuple) and v[0] == 'norm' and ('F', 'm_fac_f') in v[1:]:
+                        bw[x['id']] = 'norm'
+                    else:
+                        bw[x['id']] = 'other'
+            if x['k'] == 'CXXMemberCallExpr' and x.get('callee') == 'expand_basis':
+                a = [sym(fn, y, inline=False) for y in fn.call_args(x)]
+                if ('F', 'm_fac_f') in a and ('F', 'm_beta') in a:
+                    bw[x['id']] = 'both'
+        for a in fe.accesses:
+            if a.mode == 'w' and a.path == ('m_fac_f',):
+                nd = fn.nodes[a.node]
+                if nd['id'] in bw:
+                    continue
+                if nd['k'] == 'CXXMemberCallExpr' and nd.get('callee') == 'resize':
+                    continue          # sizing only; the value is assigned afterwards
+                kind = 'zero' if (nd['k'] == 'CXXMemberCallExpr' and nd.get('callee') == 'setZero') else 'general'
+                fw.append((nd['id'], kind))
+        if not fw:
+            continue
+        n += 1
+        problems = []
+        fids = set(i for i, _ in fw)
+        for wid, kind in fw:
+            ok_kinds = ('zero', 'norm', 'both') if kind == 'zero' else ('norm', 'both')
+            good = set(i for i, k_ in bw.items() if k_ in ok_kinds)
+            pos = fn.pos_of(fn.nodes[wid])
+            if pos is None:
+                continue
+            hit = paths.search(fn, [pos], stop=lambda m: m['id'] in good or (m['id'] in fids and m['id'] != wid),
+                               target=lambda m: m['k'] == 'ReturnStmt', exit_is_target=lambda b: True, normal_only=True)
+            if hit is not None:
+                problems.append('after `%s` a normal path leaves %s without re-computing the cached norm%s' %
+                                (fn.s(wid)[:50], fn.name, ' (a value computed BEFORE the residual was zeroed is kept)' if kind == 'zero' else ''))
+        inst = '%s::%s' % (fn.cls.replace('Spectra::', ''), fn.name)
+        ctx.check(not problems, rule, inst, fn.qname,
+                  '%d residual writes, each followed on every normal path by the matching update of the cached norm' % len(fw)
+                  if not problems else '; '.join(sorted(set(problems))[:3]))
+    if n < 6:
+        raise AnalysisBroken('only %d factorization members with residual writes analysed' % n)
